@@ -21,10 +21,10 @@ from harness import tlc, graph, regkit
 from harness.tlaval import seq
 from harness.regkit import Scenario, Walker, env_labels
 
-ENV = {'Call', 'Tick', 'Wake', 'FwdReply', 'Connect', 'Disconnect'}
+ENV = {'Call', 'Tick', 'Wake', 'FwdReply', 'Connect', 'Disconnect', 'DeclareRoute'}
 INTERNAL = ['AutoNext', 'EndRun', 'Begin', 'Acquire', 'AcquireWake', 'ReadClock', 'Sleep', 'Send', 'Finish']
 ALL_KINDS = ['r200', 'r400', 'r403', 'r503', 'nack', 'silence', 'garbage', 'vfail']
-ALL_DEVS = ['UnregAnyData', 'RegRaisesNoBody', 'RegRaisesGarbage', 'V2TwoReads', 'LegacyNoGuard',
+ALL_DEVS = ['UnregAnyData', 'RegRaisesNoBody', 'RegRaisesGarbage', 'V2TwoReads', 'V2GuardGivesUp', 'LegacyNoGuard',
             'LegacyUnregNoSem', 'LegacyUnregKeyError']
 INVS = ['TypeOK', 'ClockBound', 'OneAtATime', 'TsStrictlyIncreasing', 'SuccessIff200', 'NeverRaises', 'ExactlyOneCommand',
         'RoutesOncePerConnection', 'NoStrandedWaiter', 'SemHolderOk', 'NothingBad']
@@ -33,10 +33,11 @@ RELEVANT = {'UnregAnyData': {'SuccessIff200'},
             'RegRaisesNoBody': {'NeverRaises', 'RoutesOncePerConnection'},
             'RegRaisesGarbage': {'NeverRaises', 'RoutesOncePerConnection'},
             'V2TwoReads': {'TsStrictlyIncreasing'},
+            'V2GuardGivesUp': {'TsStrictlyIncreasing'},
             'LegacyNoGuard': {'TsStrictlyIncreasing'},
             'LegacyUnregNoSem': {'OneAtATime'},
             'LegacyUnregKeyError': {'NeverRaises', 'ExactlyOneCommand'}}
-DEVS_OF = {'v2': ['UnregAnyData', 'RegRaisesNoBody', 'RegRaisesGarbage', 'V2TwoReads'],
+DEVS_OF = {'v2': ['UnregAnyData', 'RegRaisesNoBody', 'RegRaisesGarbage', 'V2TwoReads', 'V2GuardGivesUp'],
            'legacy': ['UnregAnyData', 'RegRaisesNoBody', 'RegRaisesGarbage', 'LegacyNoGuard', 'LegacyUnregNoSem',
                       'LegacyUnregKeyError']}
 
@@ -45,8 +46,10 @@ def tla_set(xs):
     return '{' + ', '.join('"%s"' % x for x in xs) + '}'
 
 
-def consts(front, ncalls, prefixes, routes, maxconn, maxclock, kinds, allowed, forced=(), verbs=('register', 'unregister')):
-    return {'FrontEnd': '"%s"' % front, 'NCalls': ncalls, 'UserPrefixes': tla_set(prefixes), 'UserVerbs': tla_set(verbs),
+def consts(front, ncalls, prefixes, routes, maxconn, maxclock, kinds, allowed, forced=(), verbs=('register', 'unregister'),
+           late=(), stall=False):
+    return {'LateRoutes': tla_set(late), 'Stall': 'TRUE' if stall else 'FALSE',
+            'FrontEnd': '"%s"' % front, 'NCalls': ncalls, 'UserPrefixes': tla_set(prefixes), 'UserVerbs': tla_set(verbs),
             'Routes': '<- R%d' % routes, 'MaxConn': maxconn, 'MaxClock': maxclock,
             'ReplyKinds': tla_set(kinds), 'Allowed': tla_set(allowed), 'Forced': tla_set(forced)}
 
@@ -94,7 +97,9 @@ def apply(sc, belief, g, act, args):
     elif act == 'Tick':
         sc.tick()
     elif act == 'Wake':
-        sc.wake(args[1])
+        sc.wake(args[1], args[2])
+    elif act == 'DeclareRoute':
+        sc.declare(args[0], args[1])
     elif act == 'FwdReply':
         c, k, b, d = args
         idx = None
@@ -332,7 +337,7 @@ def random_resp(rng):
 
 # ------------------------------------------------------------------ stage C: random call mixes
 
-def record(front, routes, rng, ncalls=8, nev=40):
+def record(front, routes, rng, ncalls=12, nev=40):
     rts = ['x', 'y'][:routes]
     long_len = rng.choice(regkit.LONG_LENS)
     variant = rng.randrange(len(regkit.NACK_REASONS))
@@ -343,6 +348,8 @@ def record(front, routes, rng, ncalls=8, nev=40):
         sc.connect(d)
         ev.append({'a': 'Connect', 'd': d, 'post': sc.post()})
         nxt = 1
+        declared = False
+        epoch_start, expected = 0, len(rts)      # auto-registrations expected on this connection (route 'z' included)
         answered = set()
         filt = set(rts) if front == 'legacy' else set()
         conns = 1
@@ -350,10 +357,12 @@ def record(front, routes, rng, ncalls=8, nev=40):
         for _ in range(nev):
             open_cmds = [i for i in range(len(sc.cmds)) if i not in answered]
             tasks_done = all(t.done() for t in sc.tasks.values())
-            auto_done = sum(1 for c in sc.cmds if c['prefix'][1:] in rts and c['verb'] == 'register') >= conns * len(rts) or \
-                bool(sc.main_errors)
+            auto_done = sum(1 for c in sc.cmds[epoch_start:] if c['prefix'][1:] in rts + ['z'] and c['verb'] == 'register') >= expected \
+                or bool(sc.main_errors)
             choices = ['Tick', 'Pass']
-            if sc.face.running and nxt <= ncalls - conns * len(rts) - (2 - conns) * len(rts):
+            if sc.face.running and not declared and rng.random() < 0.1:
+                choices += ['Declare']
+            if sc.face.running and nxt <= ncalls - 2 * len(rts) - 4:      # ids kept for auto-registrations (spec: IdsReserved)
                 choices += ['Call'] * 4
             if open_cmds:
                 choices += ['FwdReply'] * 4
@@ -381,8 +390,14 @@ def record(front, routes, rng, ncalls=8, nev=40):
                 sc.tick()
                 ev.append({'a': 'Tick'})
             elif a == 'Pass':
-                sc.wake(d)
-                ev.append({'a': 'Pass', 'd': d})
+                adv = 0 if rng.random() < 0.15 else 1
+                sc.wake(d, adv)
+                ev.append({'a': 'Pass', 'd': d, 'adv': adv})
+            elif a == 'Declare':
+                expected += 1 if auto_done else 2      # the starting task, if still at work, picks the new route up as well
+                sc.declare('z', d)
+                declared = True
+                ev.append({'a': 'Declare', 'r': 'z', 'd': d})
             elif a == 'FwdReply':
                 i = rng.choice(open_cmds)
                 k = rng.choice(kinds)
@@ -396,6 +411,7 @@ def record(front, routes, rng, ncalls=8, nev=40):
                 filt.clear()
                 ev.append({'a': 'Disconnect'})
             elif a == 'Connect':
+                epoch_start, expected = len(sc.cmds), len(rts) + (1 if declared else 0)
                 sc.connect(d)
                 conns += 1
                 filt |= set(rts) if front == 'legacy' else set()
@@ -414,8 +430,8 @@ def judge(ctx, front, routes, recs, tag, forced=None):
         for r in recs:
             f.write(json.dumps(r) + '\n')
     cfgp = os.path.join(tlc.BUILD, 'NfdRegTrace_%s_%d.cfg' % (front, routes))
-    tlc.write_cfg(cfgp, spec='TSpec', constants=consts(front, 8, ['a', 'long', 'root'], routes, 2, 100000, ALL_KINDS,
-                                                       *((forced[1], forced[0]) if forced else (DEVS_OF[front],))),
+    tlc.write_cfg(cfgp, spec='TSpec', constants=consts(front, 12, ['a', 'long', 'root'], routes, 2, 100000, ALL_KINDS,
+                                                       *((forced[1], forced[0]) if forced else (DEVS_OF[front],)), late=['z'], stall=True),
                   invariants=['TypeOK'], constraints=['Mark'], postcondition='Post')
     r, rejected = tlc.validate_traces('NfdRegTrace', cfgp, tf, tag='c17tr')
     ctx.add_tlc('NfdRegTrace %s routes=%d (%d traces)' % (front, routes, len(recs)), r)
@@ -495,6 +511,11 @@ def stage_a(ctx):
             cfgs.append((front, 'routes', consts(front, 3, ['a'], 1, 2, 2, ['r200', 'r403', 'nack'], [])))
         else:
             cfgs.append((front, 'routes', consts(front, 5, ['a'], 2, 2, 4, ['r200', 'r403', 'nack'], [])))
+        # a route declared while connected (one route before connecting, one later, two connections)
+        cfgs.append((front, 'late', consts(front, ctx.pick(5, 6), ['a'], 1, 2, ctx.pick(4, 5), ['r200', 'nack'], [], late=['z'],
+                                             verbs=('register',))))
+        # the wall clock may stand still while loop time passes
+        cfgs.append((front, 'stall', consts(front, 2, ['a'], 0, 1, ctx.pick(1, 2), ['r200', 'r400'], [], stall=True)))
     cov = {}
     from concurrent.futures import ThreadPoolExecutor
 
@@ -529,7 +550,8 @@ def stage_a(ctx):
     for front in ('v2', 'legacy'):
         for d in DEVS_OF[front]:
             dp = os.path.join(tlc.BUILD, 'NfdReg_d_%s_%s.cfg' % (front, d))
-            tlc.write_cfg(dp, constants=consts(front, 2, ['a'], 0, 1, 2, ['r200', 'r400', 'garbage'], [d]), invariants=['NothingBad'])
+            tlc.write_cfg(dp, constants=consts(front, 2, ['a'], 0, 1, 2, ['r200', 'r400', 'garbage'], [d], stall=(d == 'V2GuardGivesUp')),
+                          invariants=['NothingBad'])
             jobs.append(('deviation', front, d, dp))
 
     def one(job):
@@ -571,6 +593,10 @@ def run(ctx):
             learn = {'has': set(), 'hasnot': set()}
             stage_b(ctx, front, 'learn', consts(front, 2, ['a'], 0, 1, 0 if front == 'legacy' else 1, ['r200', 'r400', 'garbage'],
                                                 DEVS_OF[front]), 0, 2, max_paths=ctx.pick(200, 1500), learn=learn)
+            if front == 'v2':
+                # the wall clock stands still while loop time passes: does the timestamp guard hold?
+                stage_b(ctx, front, 'learn-stall', consts(front, 2, ['a'], 0, 1, 0, ['r200'], DEVS_OF[front], stall=True), 0, 2,
+                        max_paths=ctx.pick(60, 300), learn=learn)
             unknown = [d for d in DEVS_OF[front] if d not in learn['has'] and d not in learn['hasnot']]
             if learn['has'] & learn['hasnot']:
                 ctx.violation('C17/%s/inconsistent-deviation' % front, 'the code shows and does not show %s' % sorted(
@@ -587,6 +613,12 @@ def run(ctx):
             # one declared route, two connections, one user register in between: 3 commands fit in clock 0..2
             stage_b(ctx, front, 'routes', consts(front, 3, ['a'], 1, 2, 2, ['r200', 'nack'], unk, has, verbs=('register',)), 1, 3,
                     max_paths=ctx.pick(300, 8000))
+            # a route declared while connected: registered now, and once on the next connection
+            stage_b(ctx, front, 'late', consts(front, 4, ['a'], 0, 2, 3, ['r200'], unk, has, verbs=('register',), late=['z']), 0, 4,
+                    max_paths=ctx.pick(200, 4000))
+            # wall clock standing still while loop time passes
+            stage_b(ctx, front, 'stall', consts(front, 2, ['a'], 0, 1, 1, ['r200'], unk, has, stall=True), 0, 2,
+                    max_paths=ctx.pick(150, 2000))
             if not ctx.quick:
                 stage_b(ctx, front, 'routes2', consts(front, 4, ['a'], 2, 2, 3, ['r200', 'nack'], unk, has, verbs=('register',)), 2, 4,
                         max_paths=8000)
